@@ -126,3 +126,58 @@ pub fn ok_const_index(a: &[u8; 17], i: usize) -> u8 {
 pub fn bad_const_index(a: &[u8; 17], i: usize) -> u8 {
     if i <= a.len() { a[i] } else { 0 }
 }
+pub fn ok_flag_guard(depth: usize) -> usize {
+    let is_nested = depth >= 2;
+    let mut acc = 0;
+    if is_nested {
+        acc += depth - 2;
+    }
+    acc
+}
+pub fn bad_flag_guard(mut depth: usize) -> usize {
+    let is_nested = depth >= 2;
+    depth /= 4;
+    if is_nested {
+        depth - 2
+    } else {
+        0
+    }
+}
+pub fn ok_copy_const(dst: &mut [u8; 64], src: &[u8; 24]) {
+    dst[..24].copy_from_slice(src);
+}
+pub fn bad_copy_const(dst: &mut [u8; 64], src: &[u8; 24]) {
+    dst[..25].copy_from_slice(src);
+}
+pub fn ok_range_len(v: &[u8]) -> &[u8] {
+    if v.len() >= 24 { &v[..24] } else { v }
+}
+pub fn bad_range_len(v: &[u8]) -> &[u8] {
+    if v.len() >= 24 { &v[..25] } else { v }
+}
+pub fn bad_guard_then_assign(mut depth: usize) -> usize {
+    if depth >= 2 {
+        depth /= 4;
+        depth - 2
+    } else {
+        0
+    }
+}
+pub fn ok_loop_guard(a: &[u8; 8]) -> u8 {
+    let mut i = 0usize;
+    let mut s = 0u8;
+    while i < 8 {
+        s = s.wrapping_add(a[i]);
+        i += 1;
+    }
+    s
+}
+pub fn bad_loop_guard(a: &[u8; 8]) -> u8 {
+    let mut i = 0usize;
+    let mut s = 0u8;
+    while i < 8 {
+        i += 1;
+        s = s.wrapping_add(a[i]);
+    }
+    s
+}
